@@ -40,11 +40,11 @@ def run(ctx):
     if sem.deps_rebound is not None:
         r1.violation(construct + "::deps-rebound", f"the dependency list is rebound to `{ast.unparse(sem.deps_rebound)[:90]}`: "
                      "ids dropped here are neither waited for nor checked", loc(sem.deps_rebound, fi.module))
-    elif not sem.dep_loops:
+    elif not sem.dep_loops and not sem.dep_next_vars:
         r1.violation(construct + "::loop", "no loop over all dependency ids found: dependency states are not examined one by one", fi.where)
     for n in walk_no_nested(fi.node):
         if isinstance(n, (ast.For, ast.AsyncFor)) and id(n) in sem.dep_loops:
-            brk = [b for b in ast.walk(n) if isinstance(b, ast.Break)]
+            brk = [b for b in ast.walk(n) if isinstance(b, ast.Break) and not getattr(b, "_from_return", False)]
             r1.check(not brk, construct + "::loop", "dependency loop has no break",
                      "the dependency loop can `break`: dependencies after the first are not examined", loc(n, fi.module))
 
@@ -62,15 +62,10 @@ def run(ctx):
         if inherit:
             r2.ok(construct + "::inherit", f"{len(inherit)} skip path(s): own state := dependency state within {sorted(FINAL - {'COMPLETED'})}", fi.where)
     # the inherited value is the dependency's own state (failed after failure, cancelled after cancellation)
-    inh_ok = False
-    for n in walk_no_nested(fi.node):
-        if isinstance(n, ast.Assign) and ast.unparse(n.targets[0]) == sem.own_state:
-            vt = ast.unparse(n.value)
-            vt = sem.alias_of.get(vt, vt)
-            if any(vt == f"self.{sem.info['states']}[{v}]" for v in sem.dep_vars):
-                inh_ok = True
-    r2.check(inh_ok, construct + "::inherit-value", "own state is assigned from the examined dependency's state",
-             "the skipped task's state is not taken from the dependency that did not complete", fi.where)
+    not_inh = [o for o in inherit if not o.state.facts.get("inherited")]
+    r2.check(inherit and not not_inh, construct + "::inherit-value", "own state is assigned from the examined dependency's state",
+             "the skipped task's state is not taken from the dependency that did not complete (failed after a failure, cancelled after a cancellation)", fi.where,
+             witness(not_inh[0].state, fi) if not_inh else None)
 
     r3 = ctx.rule("R3", "a dependency counts as completed only if its process exited with status 0")
     rule_exit_status(ctx, r3, fi, sem, outs)
